@@ -904,6 +904,42 @@ impl AnyFleet {
             }
         }
     }
+    /// `connect_all`: was "n" reported connected (Some(true)), failed (Some(false)) or neither (None)
+    fn connect_all(&self, env: &Env) -> Option<bool> {
+        let s = match self {
+            AnyFleet::B(f) => f.connect_all(),
+            AnyFleet::A(f) => env.rt.block_on(f.connect_all()),
+        };
+        if s.connected.iter().any(|x| x == "n") { Some(true) } else if s.failed.iter().any(|x| x == "n") { Some(false) } else { None }
+    }
+    fn disconnect_all(&self, env: &Env) {
+        match self {
+            AnyFleet::B(f) => drop(f.disconnect_all()),
+            AnyFleet::A(f) => drop(env.rt.block_on(f.disconnect_all())),
+        }
+    }
+    fn reconnect(&self, env: &Env) -> Option<bool> {
+        let s = match self {
+            AnyFleet::B(f) => f.reconnect_disconnected(),
+            AnyFleet::A(f) => env.rt.block_on(f.reconnect_disconnected()),
+        };
+        if s.reconnected.iter().any(|x| x == "n") { Some(true) } else if s.failed.iter().any(|x| x == "n") { Some(false) } else { None }
+    }
+    /// `health_check`: class of the verdict for "n" (`ok` = healthy)
+    fn health(&self, env: &Env, method: &str) -> String {
+        let mut m = match self {
+            AnyFleet::B(f) => f.health_check(method),
+            AnyFleet::A(f) => env.rt.block_on(f.health_check(method)),
+        };
+        match m.remove("n") {
+            None => "None".into(),
+            Some(h) => match (h.healthy, &h.error) {
+                (true, None) => "ok".into(),
+                (_, Some(e)) => class_of(e),
+                (false, None) => "None".into(),
+            },
+        }
+    }
     fn is_connected(&self, env: &Env, name: &str) -> bool {
         match self {
             AnyFleet::B(f) => f.is_connected(name).expect("node exists"),
@@ -1222,6 +1258,187 @@ fn run_case(env: &Env, idx: &str, kind: &str, variant: &str, max: usize, seq: &[
     out
 }
 
+
+// ------------------------------------------------------------------------------------------
+// connection management and health check, mixed with calls
+// ------------------------------------------------------------------------------------------
+fn run_life(env: &Env, idx: &str, kind: &str, max: usize, seq: &[Beh], ops: &[String]) -> CaseOut {
+    let mut out = CaseOut::default();
+    let k = kind_name(kind);
+    if seq.contains(&Beh::Refused) && env.sniffer.is_none() {
+        out.skip = Some("no_sniffer".into());
+        return out;
+    }
+    let drops0 = env.sniffer.as_ref().map(|s| s.total_drops());
+    if let Some(s) = &env.sniffer {
+        if let Err(r) = s.barrier() {
+            out.skip = Some(r);
+            return out;
+        }
+    }
+    let node = match Node::new(seq.to_vec(), env.sniffer.clone()) {
+        Ok(n) => n,
+        Err(e) => {
+            out.skip = Some(format!("node_{:?}:{e}", e.kind()));
+            return out;
+        }
+    };
+    let cfg = NodeConfig::new(node_host(), node.port()).unwrap().with_name("n").unwrap().with_timeout(T_NODE).unwrap();
+    let fleet = AnyFleet::new(kind, vec![cfg], max, DELAY);
+    let sd = seq.contains(&Beh::Refused);
+    let mut words = vec![idx.to_string(), "o".to_string()];
+    let mut dead: Vec<String> = vec![];
+    let mut healthy_calls = vec![];
+    let mut recovered: Option<usize> = None;
+    let mut verdicts: Vec<Verdict> = vec![];
+    let r: Result<(), String> = (|| {
+        for (i, op) in ops.iter().enumerate() {
+            let what = format!("operation {} ({op})", i + 1);
+            match op.as_str() {
+                "call" => {
+                    let c = one_call(env, &fleet, &node, "json")?;
+                    verdicts.push(check_call(kind, max, &c, &what, sd));
+                    if c.contacts.is_empty() && c.res.starts_with("Io(") {
+                        dead.push(c.res[3..c.res.len() - 1].to_string());
+                    }
+                    words.push(format!("call:{}", show_call(&c)));
+                }
+                "health" => {
+                    let n0 = node.log_len();
+                    let pre_conn = fleet.is_connected(env, "n");
+                    let conn_mark = node.sh.st.lock().unwrap().next_conn;
+                    let t0 = Instant::now();
+                    let res = fleet.health(env, &node.method());
+                    let t1 = Instant::now();
+                    node.settle()?;
+                    if let Some(t) = node.trouble() {
+                        return Err(t);
+                    }
+                    let c = CallRec { contacts: node.log_from(n0), res, conn: fleet.is_connected(env, "n"), t0, t1, pre_conn, conn_mark };
+                    // a health check is one attempt: the clauses of a call with max_attempts = 1 …
+                    verdicts.push(check_call(kind, 1, &c, &what, sd));
+                    // … and an unhealthy verdict must not leave a client (least of all a dead one) behind
+                    if c.res != "ok" && c.conn {
+                        verdicts.push(Verdict::Fail(
+                            format!("fleet.{k}.health.unhealthy_keeps_client"),
+                            format!("{what}: verdict {} but is_connected stays true", c.res),
+                        ));
+                    }
+                    if c.contacts.is_empty() && c.res.starts_with("Io(") {
+                        dead.push(c.res[3..c.res.len() - 1].to_string());
+                    }
+                    words.push(format!("health:{}", show_call(&c)));
+                }
+                "conn" | "reconn" => {
+                    let was = fleet.is_connected(env, "n");
+                    let r = if op == "conn" { fleet.connect_all(env) } else { fleet.reconnect(env) };
+                    node.settle()?;
+                    if let Some(t) = node.trouble() {
+                        return Err(t);
+                    }
+                    let conn = fleet.is_connected(env, "n");
+                    // the summary and the slot must agree; an occupied slot is not an attempt for reconnect
+                    let consistent = match (op.as_str(), r) {
+                        ("conn", Some(b)) => b == conn,
+                        ("conn", None) => false,
+                        (_, None) => was && conn,
+                        (_, Some(b)) => !was && b == conn,
+                    };
+                    if !consistent {
+                        verdicts.push(Verdict::Fail(
+                            format!("fleet.{k}.{}.summary_mismatch", if op == "conn" { "connect_all" } else { "reconnect" }),
+                            format!("{what}: summary {:?}, is_connected before {was} after {conn}", r),
+                        ));
+                    }
+                    let txt = match r {
+                        Some(true) => "ok",
+                        Some(false) => "failed",
+                        None => "-",
+                    };
+                    words.push(format!("{op}:{txt}:{}", conn as u8));
+                }
+                "disc" => {
+                    fleet.disconnect_all(env);
+                    node.settle()?;
+                    let conn = fleet.is_connected(env, "n");
+                    if conn {
+                        verdicts.push(Verdict::Fail(format!("fleet.{k}.disconnect_all.still_connected"), what.clone()));
+                    }
+                    words.push(format!("disc:{}", conn as u8));
+                }
+                _ => return Err("bad_life_op".into()),
+            }
+        }
+        node.set_healthy();
+        for i in 0..HEALTHY_CALLS {
+            let c = one_call(env, &fleet, &node, "json")?;
+            let ok = c.res == "ok";
+            healthy_calls.push(c);
+            if ok {
+                recovered = Some(i + 1);
+                break;
+            }
+        }
+        Ok(())
+    })();
+    if let Err(reason) = r {
+        out.skip = Some(reason);
+        return out;
+    }
+    if let (Some(s), Some(d0)) = (&env.sniffer, drops0) {
+        if s.total_drops() != d0 {
+            out.skip = Some("sniffer_drops".into());
+            return out;
+        }
+    }
+    for (i, c) in healthy_calls.iter().enumerate() {
+        verdicts.push(check_call(kind, max, c, &format!("healthy call {}", i + 1), sd));
+        if c.contacts.is_empty() && c.res.starts_with("Io(") {
+            dead.push(c.res[3..c.res.len() - 1].to_string());
+        }
+    }
+    for v in verdicts {
+        match v {
+            Verdict::Fine => {}
+            Verdict::Skip(r) => {
+                out.skip = Some(r);
+                return out;
+            }
+            Verdict::Fail(sig, d) => out.fails.push((sig, d)),
+        }
+    }
+    let allowed = if max >= 2 { 1 } else { 2 };
+    if recovered.map_or(true, |n| n > allowed) {
+        let cls = healthy_calls[0].res.replace("Io(", "").replace(')', "");
+        out.fails.push((
+            format!("fleet.{k}.recover.wedged.{cls}"),
+            format!(
+                "after operations [{}] against [{}] the node was healthy but {} call(s) with max_attempts={max} did not recover: {}",
+                ops.join(","),
+                show_seq(seq),
+                healthy_calls.len(),
+                healthy_calls.iter().map(show_call).collect::<Vec<_>>().join(" ")
+            ),
+        ));
+    }
+    words.push("|".into());
+    words.push("h".into());
+    words.extend(healthy_calls.iter().map(show_call));
+    words.push("|".into());
+    words.push("rec".into());
+    words.push(recovered.map_or("never".into(), |n| n.to_string()));
+    out.obs = Some(words.join(" "));
+    if !dead.is_empty() {
+        out.op_suffix = Some(format!("dead={}", dead.join(",")));
+    }
+    out.nontrivial = true;
+    for op in ops {
+        out.counters.push(format!("life.{op}"));
+    }
+    out.counters.push(format!("life.{k}.ops{}.len{}", ops.len(), seq.len()));
+    out
+}
+
 // ------------------------------------------------------------------------------------------
 // broadcast cases
 // ------------------------------------------------------------------------------------------
@@ -1254,7 +1471,7 @@ fn parse_bc_nodes(s: &str) -> Option<Vec<BcNode>> {
     Some(v)
 }
 
-fn run_bc(env: &Env, idx: &str, kind: &str, max: usize, nodes: &[BcNode], req: &[String]) -> CaseOut {
+fn run_bc(env: &Env, idx: &str, kind: &str, max: usize, nodes: &[BcNode], req: &[String], map_reduce: bool) -> CaseOut {
     let mut out = CaseOut::default();
     if nodes.iter().any(|n| n.down) && env.sniffer.is_none() {
         out.skip = Some("no_sniffer".into());
@@ -1294,14 +1511,24 @@ fn run_bc(env: &Env, idx: &str, kind: &str, max: usize, nodes: &[BcNode], req: &
         x.set_token(&method);
     }
     let method = method.as_str();
+    let cls = |r: repe::RemoteResult<serde_json::Value>| (r.node.clone(), class_of_result(&r.value, &r.error));
     let (mut results, mut filtered): (Vec<(String, String)>, Vec<String>) = match &fleet {
         AnyFleet::B(f) => (
-            f.broadcast_json(method, Some(&params), req).into_iter().map(|(k, r)| (k, class_of_result(&r.value, &r.error))).collect(),
+            if map_reduce {
+                // `map_reduce_json` = the same broadcast, reduced: the reducer must see one result per addressed node
+                f.map_reduce_json(method, Some(&params), req, |v| v.into_iter().map(cls).collect())
+            } else {
+                f.broadcast_json(method, Some(&params), req).into_iter().map(|(k, r)| (k, class_of_result(&r.value, &r.error))).collect()
+            },
             f.filter_nodes(req).into_iter().map(|n| n.name).collect(),
         ),
         AnyFleet::A(f) => env.rt.block_on(async {
             (
-                f.broadcast_json(method, Some(&params), req).await.into_iter().map(|(k, r)| (k, class_of_result(&r.value, &r.error))).collect(),
+                if map_reduce {
+                    f.map_reduce_json(method, Some(&params), req, |v| v.into_iter().map(cls).collect()).await
+                } else {
+                    f.broadcast_json(method, Some(&params), req).await.into_iter().map(|(k, r)| (k, class_of_result(&r.value, &r.error))).collect()
+                },
                 f.filter_nodes(req).await.into_iter().map(|n| n.name).collect(),
             )
         }),
@@ -1382,10 +1609,18 @@ fn exec(env: &Env, line: &str) -> CaseOut {
             }
             run_case(env, idx, kind, variant, max, &seq)
         }
-        ["bc", idx, kind, max, nodes, req] if ["b", "a"].contains(kind) => {
+        [op @ ("bc" | "mr"), idx, kind, max, nodes, req] if ["b", "a"].contains(kind) => {
             let (Ok(max), Some(nodes)) = (max.parse::<usize>(), parse_bc_nodes(nodes)) else { return bad() };
             let req: Vec<String> = if *req == "-" { vec![] } else { req.split(',').map(|x| x.to_string()).collect() };
-            run_bc(env, idx, kind, max, &nodes, &req)
+            run_bc(env, idx, kind, max, &nodes, &req, *op == "mr")
+        }
+        ["life", idx, kind, max, seq, ops, ..] if w.len() <= 7 && ["b", "a"].contains(kind) => {
+            let (Ok(max), Some(seq)) = (max.parse::<usize>(), parse_seq(seq)) else { return bad() };
+            let ops: Vec<String> = ops.split(',').filter(|x| !x.is_empty()).map(|x| x.to_string()).collect();
+            if max == 0 || ops.is_empty() || !ops.iter().all(|o| ["conn", "disc", "reconn", "health", "call"].contains(&o.as_str())) {
+                return bad();
+            }
+            run_life(env, idx, kind, max, &seq, &ops)
         }
         _ => bad(),
     }
@@ -1436,6 +1671,32 @@ fn gen_cases(rng: &mut Rng, thorough: bool) -> Vec<String> {
             push(&mut ops, kind, max, &seq);
         }
     }
+    // connection management and health check mixed with calls: every operation sequence up to length 3
+    // over {connect_all, disconnect_all, reconnect_disconnected, health_check, call}; node scripts up to
+    // length 2 without `silent` (health_check waits 5 s for a reply): quick 8 sampled scripts per
+    // operation sequence, thorough all 43
+    {
+        let life_ops = ["conn", "disc", "reconn", "health", "call"];
+        let mut op_seqs: Vec<Vec<&str>> = vec![];
+        for len in 1..=3usize {
+            let mut cur: Vec<Vec<&str>> = vec![vec![]];
+            for _ in 0..len {
+                cur = cur.into_iter().flat_map(|s| life_ops.iter().map(move |o| { let mut t = s.clone(); t.push(*o); t })).collect();
+            }
+            op_seqs.extend(cur);
+        }
+        let scripts: Vec<Vec<Beh>> = (0..=2).flat_map(all_seqs).filter(|s| !s.contains(&Beh::Silent)).collect();
+        let mut l = 0usize;
+        for os in &op_seqs {
+            let chosen: Vec<&Vec<Beh>> = if thorough { scripts.iter().collect() } else { (0..8).map(|_| rng.pick(&scripts)).collect() };
+            for sc in chosen {
+                l += 1;
+                let kind = if l % 2 == 0 { "b" } else { "a" };
+                let max = 1 + l % 3;
+                ops.push(format!("life l{l} {kind} {max} {} {}", show_seq(sc), os.join(",")));
+            }
+        }
+    }
     // broadcasts: every assignment of tag subsets to up to N nodes, every requested subset
     let mut m = 0usize;
     let plans: Vec<(usize, Vec<&str>)> =
@@ -1482,7 +1743,8 @@ fn gen_cases(rng: &mut Rng, thorough: bool) -> Vec<String> {
                             format!("n{i}={t}={bs}")
                         })
                         .collect();
-                    ops.push(format!("bc b{m} {kind} {max} {} {req}", nodes.join(";")));
+                    let op = if m % 3 == 0 { "mr" } else { "bc" };
+                    ops.push(format!("{op} b{m} {kind} {max} {} {req}", nodes.join(";")));
                 }
             }
         }
@@ -1502,7 +1764,7 @@ fn main() {
     out.extra.insert("sniffer".into(), serde_json::json!(env.sniffer.is_some()));
     out.extra.insert("node_timeout_ms".into(), serde_json::json!(T_NODE.as_millis() as u64));
     out.extra.insert("retry_delay_ms".into(), serde_json::json!(DELAY.as_millis() as u64));
-    out.rule = "case = fresh Fleet/AsyncFleet + one scripted node: calls until the script is consumed (at most 2*len+1), then a healthy phase of up to 3 calls; all behaviour sequences over the 7-letter alphabet up to length max+2 (quick: max 1 up to length 3, max 2 up to length 4, max 3 up to length 3 + 300 sampled sequences of length 4-5; thorough: max 1..3 up to length max+2, exhaustive), both fleets, call variants json/jsonnp/msg in rotation (thorough: all three for max 1,2); bc = every assignment of tag subsets to up to 3 (thorough 4) nodes x every requested subset (+ one duplicated tag), every 7th with a refusing node. Distinct by op line; non-trivial = a call retried, hit a dead cached client, or returned an error / a broadcast that selects a proper non-empty subset or has a refusing node".into();
+    out.rule = "case = fresh Fleet/AsyncFleet + one scripted node: calls until the script is consumed (at most 2*len+1), then a healthy phase of up to 3 calls; all behaviour sequences over the 7-letter alphabet up to length max+2 (quick: max 1 up to length 3, max 2 up to length 4, max 3 up to length 3 + 300 sampled sequences of length 4-5; thorough: max 1..3 up to length max+2, exhaustive), both fleets, call variants json/jsonnp/msg in rotation (thorough: all three for max 1,2); life = every sequence (length 1-3) of connect_all / disconnect_all / reconnect_disconnected / health_check / call against node scripts of length <= 2 without silent (quick: 8 sampled scripts each; thorough: all 43), then the healthy phase; bc / mr (map_reduce_json) = every assignment of tag subsets to up to 3 (thorough 4) nodes x every requested subset (+ one duplicated tag), every 7th with a refusing node, every 5th with a node that is silent on every attempt, every 11th with a node answering an application error. Distinct by op line; non-trivial = a call retried, hit a dead cached client, or returned an error / a broadcast that selects a proper non-empty subset or has a refusing node".into();
     let mut ops: Vec<String> = match args.replay_ops() {
         Some(ops) => ops,
         None => gen_cases(&mut rng, args.thorough()),
